@@ -9,9 +9,12 @@
 //!     -> `T <S|C> ;; J <hex json|-> ;; D <dump> ;; M <monitor> ;; K <class> ;; E <n convert errors> ;; M2 <monitor>`
 //!        or `noparse`; M2 = the monitor on the same recipe with its metadata removed (only computed for
 //!        the classes nsk / tag, else `-`)
-//!        monitor: ok | ser_err | de_err | neq_partialeq | neq_dump | reser_diff | panic
+//!        monitor: ok | ser_err | de_err | neq_dump (the structural dumps differ) | neq_float (they differ
+//!        only in f64 values, each changed exactly as serde_json's print + parse changes that number) |
+//!        neq_partialeq | reser_diff | panic
 //!        class: `-` or a subset of nsk (a YAML mapping key that is not a string), tag (a tagged YAML
-//!        value), nf (a non-finite number somewhere)
+//!        value), nf (a non-finite number somewhere), fp (a finite f64 that serde_json does not parse
+//!        back from its own text)
 //!   M <S|C> <hex json>     from_str as ScalableRecipe / ScaledRecipe
 //!     -> `acc <hex re-serialisation>` | `rej`
 //!
@@ -32,6 +35,39 @@ use cooklang::scale::{ScaleOutcome, Scaled, ScaledData};
 use cooklang::{Converter, CooklangParser, Extensions, Modifiers, ScalableRecipe, ScaledRecipe};
 use vh::*;
 
+/// the oracle hypothesis of the model on one number: printing then parsing gives the same f64
+fn reparses(v: f64) -> bool {
+    serde_json::to_string(&v)
+        .ok()
+        .and_then(|t| serde_json::from_str::<f64>(&t).ok())
+        .map(|w| w.to_bits() == v.to_bits())
+        .unwrap_or(false)
+}
+
+/// do two bit-pattern dumps differ only in f64 tokens, each difference being exactly what
+/// serde_json's own print + parse does to that number?
+fn differs_only_by_reparse(a: &str, b: &str) -> bool {
+    let (x, y): (Vec<&str>, Vec<&str>) = (a.split(' ').collect(), b.split(' ').collect());
+    if x.len() != y.len() {
+        return false;
+    }
+    let bits = |t: &str| -> Option<u64> {
+        let h = t.strip_prefix("N#").or_else(|| t.strip_prefix("yN#"))?;
+        u64::from_str_radix(h, 16).ok()
+    };
+    x.iter().zip(y.iter()).all(|(p, q)| {
+        p == q
+            || match (bits(p), bits(q)) {
+                (Some(u), Some(w)) => {
+                    let v = f64::from_bits(u);
+                    serde_json::to_string(&v).ok().and_then(|t| serde_json::from_str::<f64>(&t).ok()).map(|r| r.to_bits())
+                        == Some(w)
+                }
+                _ => false,
+            }
+    })
+}
+
 #[derive(Clone, Copy, PartialEq)]
 enum Mode {
     Text,
@@ -44,11 +80,13 @@ struct D {
     nonfinite: bool,
     nsk: bool,
     tag: bool,
+    /// some finite f64 x with serde_json::from_str(&serde_json::to_string(&x)) != x
+    inexact: bool,
 }
 
 impl D {
     fn new(mode: Mode) -> Self {
-        D { o: String::new(), mode, nonfinite: false, nsk: false, tag: false }
+        D { o: String::new(), mode, nonfinite: false, nsk: false, tag: false, inexact: false }
     }
     fn tok(&mut self, t: &str) {
         if !self.o.is_empty() {
@@ -59,6 +97,8 @@ impl D {
     fn f64(&mut self, v: f64) {
         if !v.is_finite() {
             self.nonfinite = true;
+        } else if !reparses(v) {
+            self.inexact = true;
         }
         let t = match self.mode {
             Mode::Text => format!("N{}", serde_json::to_string(&v).unwrap()),
@@ -118,6 +158,8 @@ impl D {
                     let f = n.as_f64().unwrap();
                     if !f.is_finite() {
                         self.nonfinite = true;
+                    } else if !reparses(f) {
+                        self.inexact = true;
                     }
                     match self.mode {
                         Mode::Text => serde_json::to_string(&f).unwrap(),
@@ -531,6 +573,9 @@ fn class(d: &D) -> String {
     if d.nonfinite {
         k.push("nf");
     }
+    if d.inexact {
+        k.push("fp");
+    }
     if k.is_empty() { "-".into() } else { k.join(",") }
 }
 
@@ -565,10 +610,11 @@ fn run_variant(
             Ok(b) => b,
             Err(_) => return Some(report("S", Some(&json), &d, "de_err", 0)),
         };
-        let m = if back != rec {
+        let (a, b) = (reset_skipped(&dump_scalable(&rec, Mode::Bits).o), dump_scalable(&back, Mode::Bits).o);
+        let m = if a != b {
+            if differs_only_by_reparse(&a, &b) { "neq_float" } else { "neq_dump" }
+        } else if back != rec {
             "neq_partialeq"
-        } else if dump_scalable(&back, Mode::Bits).o != reset_skipped(&dump_scalable(&rec, Mode::Bits).o) {
-            "neq_dump"
         } else if serde_json::to_string(&back).ok().as_deref() != Some(&json) {
             "reser_diff"
         } else {
@@ -603,10 +649,11 @@ fn run_variant(
         && back.cookware == sc.cookware
         && back.timers == sc.timers
         && back.inline_quantities == sc.inline_quantities;
-    let m = if !peq {
+    let (a, b) = (reset_skipped(&dump_scaled(&sc, Mode::Bits).o), dump_scaled(&back, Mode::Bits).o);
+    let m = if a != b {
+        if differs_only_by_reparse(&a, &b) { "neq_float" } else { "neq_dump" }
+    } else if !peq {
         "neq_partialeq"
-    } else if dump_scaled(&back, Mode::Bits).o != reset_skipped(&dump_scaled(&sc, Mode::Bits).o) {
-        "neq_dump"
     } else if serde_json::to_string(&back).ok().as_deref() != Some(&json) {
         "reser_diff"
     } else {
